@@ -40,6 +40,27 @@ type RunN struct{ Part }
 
 func (r *RunN) Run() error { return r.run("run") }
 
+// runners whose Order is only known after their own initialisation (it reads state the container
+// provides): Order() answers 0 before Init ran
+type RunPI struct {
+	Part
+	ord int
+}
+
+func (r *RunPI) Priority()   {}
+func (r *RunPI) Order() int  { return r.ord }
+func (r *RunPI) Init() error { r.ord = r.O; return nil }
+func (r *RunPI) Run() error  { return r.run("run") }
+
+type RunOI struct {
+	Part
+	ord int
+}
+
+func (r *RunOI) Order() int  { return r.ord }
+func (r *RunOI) Init() error { r.ord = r.O; return nil }
+func (r *RunOI) Run() error  { return r.run("run") }
+
 // lazy runners
 type RunPZ struct{ RunP }
 
